@@ -49,6 +49,13 @@ def base_ns(draw=None, probes=0, hooks=False):
         **{'else': '⟦ELSE⟧', 'elif': '⟦ELIF⟧', 'except': '⟦EXCEPT⟧',
            'finally': '⟦FINALLY⟧', 'in': '⟦IN⟧', 'if': '⟦IF⟧',
            'var': '⟦VAR⟧', 'end': '⟦END⟧', 'try': '⟦TRY⟧'},
+        # names spelled like attributes of the var tag; mixed-case names
+        # next to their lower-case spellings
+        **{'size': '⟦SIZE⟧', 'url': '⟦URL-lower⟧', 'upper': '⟦UPPER⟧',
+           'lower': '⟦LOWER⟧', 'null': '⟦NULL⟧', 'fmt': '⟦FMT⟧',
+           'etc': '⟦ETC⟧', 'missing': '⟦MISSING⟧', 'html_quote': '⟦HQ⟧',
+           'mapping': '⟦MAPPING⟧', 'Title': '⟦Title⟧', 'title': '⟦title⟧',
+           'URL': '⟦URL⟧', 'vA': '⟦vA⟧'},
         # names that are proper prefixes of other names of the schema
         v='⟦V⟧', c=0, s=dict(t='list', items=['⟦s⟧']),
         fa=dict(t='rec', id='fa', ret='⟦FA⟧'),
